@@ -170,3 +170,28 @@ def native_alias_program(rng):
     M += ["print(aliaslib.call_say());", "print(aliaslib.own());", "try { print(lib_only); } catch e { print(type(e)); }",
           "try { print(type(lib_say)); } catch e { print(type(e)); }"]
     return "\n".join(M) + "\n", [("aliaslib", "\n".join(lib) + "\n")]
+
+
+def deep_import_program(rng):
+    """imports executed at call depths around the frame limit (a module body runs as one more call): the import
+    either succeeds or fails with a catchable error, and in both cases the importer's own globals - including ones
+    that shadow built-in names - and the module registry must be what the model says"""
+    r = rng
+    depth = r.choice([1, 30, 58, 59, 60, 61, 62, 63, 64, 62, 61])
+    shadow = r.sample(["clock", "type", "Num", "Vec", "String", "Object", "Error", "StopIter", "HashMap", "Fiber"], r.range(1, 3)) if hasattr(r, "sample") else ["clock", "Num"]
+    nested = r.chance(40)
+    mods = [("dm_leaf", "print(\"leaf body\");\nvar leafv = [clock == nil, type(1)];\nfn get() { return leafv; }\n")]
+    if nested:
+        mods.append(("dm_mid", "print(\"mid body\");\nvar Num = \"mid's Num\";\nimport \"dm_leaf\" as leaf;\nfn get() { return [Num, leaf.get()]; }\n"))
+    target = "dm_mid" if nested else "dm_leaf"
+    L = ["var %s = \"my %s\";" % (s, s) for s in shadow if s not in ("type",)]
+    L += ["var mine = [1, 2];",
+          "fn deep(n) { if n == 0 { import \"%s\" as m; return m.get(); } return deep(n - 1); }" % target,
+          "try { print(deep(%d)); } catch e { print(type(e)); print(e.context); }" % depth]
+    L += ["print(%s);" % s for s in shadow if s != "type"]
+    L += ["print(mine);",
+          "try { import \"%s\" as again; print(again.get()); } catch e { print(type(e)); print(e.context); }" % target,
+          "try { import \"dm_leaf\" as l2; print(l2.get()); } catch e { print(type(e)); print(e.context); }",
+          "try { print(deep(3)); } catch e { print(type(e)); print(e.context); }"]
+    L += ["print(%s);" % s for s in shadow if s != "type"]
+    return "\n".join(L) + "\n", mods
